@@ -360,10 +360,11 @@ def rule_r3(repo: Repo, res: Result) -> None:
         else:
             g_root = as_root(f_or([g for g, _v in rootcase]))
             g_gen = as_root(f_or([g for g, _v in general])) if general else FALSE
-            ok = implies(atom("ROOT"), g_root) and implies(g_root, atom("ROOT")) and implies(g_gen, f_not(atom("ROOT")))
+            known = as_root(reg.known)
+            ok = implies(f_and([known, atom("ROOT")]), g_root) and implies(f_and([known, g_root]), atom("ROOT")) and implies(f_and([known, g_gen]), f_not(atom("ROOT")))
             detail = "the root directory itself is named by its directory name" if ok else f"the source root is not named by its own directory name exactly when the relative path is empty (root case under `{show_formula(g_root)[:120]}`)"
         res.add("C04.R3", key + " [root maps to its own name]", ok, detail, wh, kind="dominance")
-    res.floor("C04.R3", 2, done)
+    res.floor("C04.R3", 1, done)
 
 
 # =========================================================================== R4
@@ -396,6 +397,10 @@ def _chain_pos(t: Term):
                 a, b = _slice_of(it[2][0]), _slice_of(it[2][1])
                 if a[0] == b[0] and b[1:] == (1, None) and a[1:] in ((None, -1), (None, None)):
                     return a[0], base[2], i[1], "pairs"
+                # zip(p, p[1:] + [c]) walks the consecutive pairs of p + [c]
+                tail = seq(it[2][1])
+                if a[1:] == (None, None) and len(tail) == 2 and tail[0][0] == "many" and _slice_of(tail[0][1]) == (a[0], 1, None) and tail[1][0] == "one":
+                    return ("binop", "+", a[0], ("list", (tail[1][1],))), base[2], i[1], "pairs"
                 return None
             if it[1][0] == "lib" and it[1][1].endswith("pairwise") and len(it[2]) == 1:
                 return it[2][0], base[2], i[1], "pairs"
@@ -515,7 +520,7 @@ def _graph_state_atoms(sx: SymX, f: Formula, graph: Term, config: set[str], ends
             ok.add(key)  # an edge from a node to itself is never created
             continue
         subs = list(subterms(t))
-        if any(x == graph for x in subs):
+        if any(x[:2] == graph[:2] for x in subs):
             ok.add(key)
             continue
         params = {x[1] for x in subs if x[0] == "param"}
@@ -563,7 +568,7 @@ def rule_r4(repo: Repo, res: Result) -> None:
     node_events: list[tuple[Event, Term]] = []
     edge_events: list[tuple[Event, Term, Term, Term | None]] = []
     for e in tr.events:
-        if e.recv != graph or e.kind not in ("call", "mut"):
+        if e.recv is None or e.recv[:2] != graph[:2] or e.kind not in ("call", "mut"):
             continue
         if e.name == "add_node" and e.args:
             node_events.append((e, e.args[0]))
@@ -707,7 +712,16 @@ def _concretise(sx: SymX, t: Term, facts: dict, internal: Term, depth: int = 0):
     if t[0] == "const" and isinstance(t[1], str):
         return tuple(("c", p) for p in t[1].split(".")) if t[1] else ()
     if t[0] == "fstr" or (t[0] == "binop" and t[1] == "+"):
-        items = t[1] if t[0] == "fstr" else (t[2], t[3])
+
+        def flat(x: Term) -> list:
+            x = unbox(x)
+            if x[0] == "fstr":
+                return [z for y in x[1] for z in flat(y)]
+            if x[0] == "binop" and x[1] == "+":
+                return flat(x[2]) + flat(x[3])
+            return [x]
+
+        items = flat(t)
         out: list = []
         glue = False  # the previous piece did not end at a separator
         for x in items:
